@@ -72,4 +72,17 @@ PROPS["C18"] = dict(
     trusted=["verif hooks VerifGenerateCookie, VerifVerifyCookie, VerifClientHello (dtlcp)", "tk.CountKey instrumented keys passed through the public Config", "Spec/SM3.v (validated on the GB/T 32905 vectors inside Coq)"],
 )
 
+PROPS["C15"] = dict(
+    technique="Coq proofs (linear arithmetic with div/mod, induction over the splitting loop) on a Z model of maxPayloadSizeForWrite / record length / writeRecordLocked splitting; vm_compute correspondence on established DTLCP connections over the virtual-time network",
+    level_text="Theorems for every PMTU, suite and payload size (one datagram within the maximum payload, every datagram within the path MTU, at most 16384 plaintext "
+               "bytes, split in order) proved in Coq; the exact list of datagram sizes and of received pieces of every Write/WriteTo is compared with the model, and "
+               "an MTU/boundary predicate independent of max_payload is evaluated on them and on the datagram sizes of every handshake.",
+    level_note="Trusted: Coq kernel + vm_compute; hand-written model tied by correspondence. K3 (a buffered handshake flight leaves as one datagram) and K5 (empty WriteTo "
+               "sends nothing) are known findings, proved as _refuted theorems on the model and reported as KNOWN-FINDING.",
+    code_names={1: "fitting-payload-not-exactly-one-datagram", 2: "datagram-exceeds-pmtu", 3: "record-above-16384-plaintext", 4: "empty-payload-no-datagram",
+                5: "payload-lost-altered-or-short-write", 6: "handshake-datagram-exceeds-pmtu", 7: "handshake-failed", 8: "unexpected-extra-datagram", "hang": "hang"},
+    assumptions=["the PMTU admits one payload byte for the suite (min_pmtu)"],
+    trusted=["tk.VNet virtual-time network (datagram sizes are what the library hands to PacketConn.WriteTo)"],
+)
+
 NOT_YET = {}
